@@ -71,6 +71,9 @@ func drawSigned(t *rapid.T) sdSpec {
 		if !g.NoAttr {
 			g.ExtraSigned = rapid.SampledFrom([]int{0, 0, 1, 3}).Draw(t, "xsigned")
 			g.ExtraUnsigned = rapid.SampledFrom([]int{0, 0, 1, 2}).Draw(t, "xunsigned")
+			if rapid.IntRange(0, 5).Draw(t, "attrpadOn") == 0 {
+				g.AttrPad = rapid.SampledFrom([]int{1, 20, 27, 28, 29, 100, 150, 155, 156, 157, 158, 160, 300, 65400, 65440, 65480}).Draw(t, "attrpad")
+			}
 		}
 		s.Signers = append(s.Signers, g)
 	}
@@ -90,6 +93,52 @@ func TestC16_SignedComplete(t *testing.T) {
 			// the (slow, naive) SM2 reference verification runs on a share of the cases
 			return checkSignedComplete(s, r, s.Seed%8 == 0)
 		})
+}
+
+// TestC16_SignedAttrSizes: the authenticated attributes are signed as their SET
+// OF encoding, which the library derives from another encoding of the same
+// attributes by patching the header (RFC 5652 5.4). Every size of that SET
+// from its natural ~100 bytes to 330 bytes (the length field grows at 128 and
+// at 256) and around 65536, for SM2, ECDSA and RSA signers: the signature must
+// verify INDEPENDENTLY over the SET OF bytes (an error shared by the library's
+// signer and verifier is invisible to Verify; seeded change C16-8-2).
+func TestC16_SignedAttrSizes(t *testing.T) {
+	h.MarkExhaustive("signed-attr-sizes")
+	variants := []sdSpec{
+		{SM: true, Mode: modeAttached, Signers: []signerSpec{{Id: "sm2-0", Digest: "sm3"}}},
+		{Mode: modeAttached, Signers: []signerSpec{{Id: "ec-0", Digest: "sha256"}}},
+		{Mode: modeDetached, Signers: []signerSpec{{Id: "rsa-0", Digest: "sha256", ExtraSigned: 1}}},
+	}
+	h.Sweep(t, h.P{Name: "signed-attr-sizes"}, func(emit func(sdSpec)) {
+		var pads []int
+		for n := 1; n <= 230; n++ {
+			pads = append(pads, n)
+		}
+		for n := 65300; n <= 65560; n += 4 {
+			pads = append(pads, n)
+		}
+		if h.Thorough() {
+			for n := 65300; n <= 65560; n++ {
+				pads = append(pads, n)
+			}
+		}
+		for i, n := range pads {
+			v := variants[i%len(variants)]
+			if n <= 230 && n >= 10 && n <= 170 { // the stretch in which the SET passes 128 and 256: every variant
+				for _, w := range variants {
+					w.Signers = append([]signerSpec{}, w.Signers...)
+					w.Signers[0].AttrPad = n
+					w.Len, w.Seed = 20+n%7, gen.Mix(h.Seed, 0xa5, uint64(n))
+					emit(w)
+				}
+				continue
+			}
+			v.Signers = append([]signerSpec{}, v.Signers...)
+			v.Signers[0].AttrPad = n
+			v.Len, v.Seed = 20+n%7, gen.Mix(h.Seed, 0xa5, uint64(n))
+			emit(v)
+		}
+	}, func(s sdSpec, r *h.Rec) error { return checkSignedComplete(s, r, true) })
 }
 
 // every content length 0..100 for the main signing variants
